@@ -27,12 +27,14 @@ from . import c09_census
 
 THEOREMS = ["census_audited", "audited_admissible", "seed_irrelevant", "tmp_unprinted", "noninterference",
             "noninterference_needs_guard", "order_equivariant", "key_order_equivariant", "retrace_idempotent",
-            "rebuild_hits", "consumers_perm_invariant", "suffix_clash_witness"]
+            "rebuild_hits", "consumers_perm_invariant", "suffix_clash_witness", "no_listed_findings"]
 SEARCHED = [
     "text identical across PYTHONHASHSEED values and processes (CPython hashing, id(), allocation order: not modelled)",
     "text independent of request order / repetitions / other contexts, targets, functions used earlier in the process",
     "text identical when the same function is traced twice in one fresh context",
     "no emitted text contains an anonymous-symbol name (`_tmp`)",
+    "apmath/lax configuration (context parameter dtypes=[...], ArrayLike arguments): text identical across >= 12 hash seeds; "
+    "one `_np_dtypes.index(<arg>.dtype.type)` per class of arguments declared same-dtype (structural clause on find_dtype_index)",
     "that CPython exposes no channel other than those in the census is NOT a theorem",
 ]
 TRUSTED = [
@@ -317,7 +319,14 @@ def correspondence(ctx):
 
 # ----------------------------------------------------------------------------- search (real code, sha-256)
 
+_DTI = re.compile(r"\b(\w+)\.dtype\.type|dtype_index_(\w+)")
+
+
 def classify_diff(a, b):
+    if "_np_dtypes.index(" in a:
+        na, nb = _DTI.sub("<dtype-arg>", a), _DTI.sub("<dtype-arg>", b)
+        if na == nb:
+            return "dtype-index-argument"
     ta = re.findall(r"[A-Za-z_][A-Za-z_0-9]*|\S", a)
     tb = re.findall(r"[A-Za-z_][A-Za-z_0-9]*|\S", b)
     da = [t for t in ta if t not in set(tb)]
@@ -365,6 +374,15 @@ def make_jobs(ctx, reqs, nseeds, heavy):
             rng.shuffle(order)
             jobs.append(dict(name=f"interleave/seed{si}", hashseed=s, dirty=rng.choice([0, 7]),
                              plan=[dict(kind="interleave", req=r, others=[rng.choice(reqs) for _ in range(3)]) for r in order]))
+    # D: the apmath/lax configuration (the only one that exercises Context.dtype_index / find_dtype_index / the
+    # same_dtype_cache) under at least 12 hash seeds of its own, in child interpreters
+    lax = [r for r in reqs if r[0] == "lax"]
+    if lax:
+        for si in range(max(12, nseeds)):
+            order = list(lax)
+            rng.shuffle(order)
+            jobs.append(dict(name=f"lax/seed{si}", hashseed=rng.randrange(1, 2 ** 32 - 1), dirty=rng.choice([0, 3]),
+                             plan=[dict(kind="plain", req=r) for r in order]))
     return jobs
 
 
@@ -399,6 +417,31 @@ def search(ctx, reqs, broken_items, heavy):
     ctx.notes["jobs"] = len(jobs)
     ctx.sample(dict(kind="sha", req=reqs[0], sha=base_sha[tuple(reqs[0])]), limit=4)
     found = {}
+    # structural clause on the dtype index (needs no luck with seeds): checked in every configuration that reports it
+    struct_bad = {}
+    nstruct = 0
+    for job, (res, err) in zip([base_job] + jobs, results):
+        for r in (res or {}).get("results", []):
+            st = r.get("dtype_struct")
+            if st is not None:
+                nstruct += 1
+                ctx.count("dtype_struct:checked")
+                if not st["ok"]:
+                    struct_bad.setdefault(tuple(r["req"]), (job, st))
+    ctx.notes["dtype_struct_checked"] = nstruct
+    ctx.obligation("search:dtype_index structural clause (one `_np_dtypes.index(<arg>.dtype.type)` per same-dtype class of arguments)",
+                   not struct_bad, kind="search")
+    census_dt = [b for b in broken_items if "census" in b["name"]]
+    for key, (job, st) in sorted(struct_bad.items())[:2]:
+        print(f"[C09] dtype-index structural clause fails for {list(key)}: same-dtype classes {st['classes']} (declared {st['declared']}) "
+              f"but the text indexes _np_dtypes by {st['index_args']}", flush=True)
+        ctx.violation("dtype_index:several-index-arguments-in-one-same-dtype-class(Context.dtype_index.find_dtype_index)",
+                      f"lax text of {list(key)} takes _np_dtypes.index(<arg>.dtype.type) of {st['index_args']} although these arguments were "
+                      f"(transitively) declared same-dtype {st['classes']}: find_dtype_index did not find the cached index of the class",
+                      dict(probe="dtype_struct", req=list(key), hashseed=job["hashseed"], struct=st),
+                      broken_item=census_dt[0] if census_dt else None)
+        for it in census_dt[1:]:
+            it["has_failing_input"] = True
     for job, (res, err) in zip(jobs, results[1:]):
         if res is None:
             item = ctx.broken(f"search:c09-worker({job['name']})", err)
@@ -464,12 +507,13 @@ def search(ctx, reqs, broken_items, heavy):
         for it in answered[1:]:
             it["has_failing_input"] = True
     ctx.notes["digest_differences"] = len(found)
-    probe_dtype_index(ctx, sorted({str(j["hashseed"]) for j in jobs} | {str(k) for k in range(1, 9)}))
+    probe_dtype_index(ctx, sorted({str(j["hashseed"]) for j in jobs} | {str(k) for k in range(1, 9)})[:24 if ctx.quick else 200], broken_items)
 
 
-def probe_dtype_index(ctx, seeds):
-    """Directed clause for the audited `listedFinding` entry (unsorted iteration over a set of expression keys in
-    Context.dtype_index.find_dtype_index): a user-level algorithm, lax target, text compared across hash seeds."""
+def probe_dtype_index(ctx, seeds, broken_items=()):
+    """Regression clause for the defect fixed by /repo commit 05234cd (find_dtype_index iterated a SET of expression keys and
+    returned the first cached index it met): a user-level algorithm with two cached indices in one same-dtype class, lax
+    target, text compared across hash seeds.  Silent on a fixed tree; fires again if the set comes back."""
     res = pool_map(lambda s: worker(dict(mode="probe_dtype_index"), hashseed=s), seeds)
     texts = {}
     for s, (r, err) in zip(seeds, res):
@@ -485,7 +529,10 @@ def probe_dtype_index(ctx, seeds):
         ctx.violation("text-differs:hashseed:dtype_index-set-iteration(Context.dtype_index.find_dtype_index)",
                       "lax text of a user algorithm that calls Context.dtype_index after _assume_same_dtype depends on PYTHONHASHSEED "
                       "(find_dtype_index iterates a set of expression keys and returns the first cached index it meets)",
-                      dict(probe="dtype_index", seeds=[sa[0], sb[0]], diff=d))
+                      dict(probe="dtype_index", seeds=[sa[0], sb[0]], diff=d),
+                      broken_item=next((b for b in broken_items if "census" in b["name"]), None))
+        for it in [b for b in broken_items if "census" in b["name"]][1:]:
+            it["has_failing_input"] = True
 
 
 # ----------------------------------------------------------------------------- run / replay
@@ -527,6 +574,15 @@ def replay(ctx, obj):
             return 0 if a and b else 1
         print(udiff(a["text"], b["text"], f"PYTHONHASHSEED={rp['seeds'][0]}", f"PYTHONHASHSEED={rp['seeds'][1]}"))
         return 1
+    if rp.get("probe") == "dtype_struct":
+        r, err = worker(dict(mode="sha", plan=[dict(kind="plain", req=rp["req"])], texts=True), hashseed=rp.get("hashseed", 0))
+        if r is None:
+            print("worker failed:", err)
+            return 1
+        st = r["results"][0].get("dtype_struct")
+        print(r["results"][0]["text"][0])
+        print("dtype_struct:", st)
+        return 0 if st and st["ok"] else 1
     if "variant" not in rp:
         print("replay names an obligation without failing input:", obj.get("obligation"))
         print(obj.get("detail", "")[:2000])
